@@ -70,7 +70,9 @@ func TestVerifRekey(t *testing.T) {
 				s := make([]byte, eddilithium2.SignatureSize)
 				eddilithium2.SignTo(k, msg, s)
 				return s, k.Public().(*eddilithium2.PublicKey)
-			}, func(pk sign.PublicKey, s []byte) bool { return eddilithium2.Verify(pk.(*eddilithium2.PublicKey), msg, s) }, pkA, pkB)
+			}, func(pk sign.PublicKey, s []byte) bool {
+				return eddilithium2.Verify(pk.(*eddilithium2.PublicKey), msg, s)
+			}, pkA, pkB)
 		}
 		{
 			var tA, tB [eddilithium3.SeedSize]byte
@@ -83,7 +85,9 @@ func TestVerifRekey(t *testing.T) {
 				s := make([]byte, eddilithium3.SignatureSize)
 				eddilithium3.SignTo(k, msg, s)
 				return s, k.Public().(*eddilithium3.PublicKey)
-			}, func(pk sign.PublicKey, s []byte) bool { return eddilithium3.Verify(pk.(*eddilithium3.PublicKey), msg, s) }, pkA, pkB)
+			}, func(pk sign.PublicKey, s []byte) bool {
+				return eddilithium3.Verify(pk.(*eddilithium3.PublicKey), msg, s)
+			}, pkA, pkB)
 		}
 	}
 }
